@@ -60,8 +60,9 @@ def run(chk):
                 'each document is replayed on the real parser: str(TexSoup(src)) == src and the text of every expression and '
                 'text token is the slice of the source at its recorded position. Corpus documents parsed by the real code '
                 'are validated by TLC (DocsTrace). A case is a document.')
-    for label, pools in scopes(chk):
-        recs, p = D.generate(chk, label, pools, INV)
+    sims = [('simulate', {'Budget': 12, 'MaxDepth': 5, 'MaxSib': 4}, 300 if chk.tier == 'quick' else 6000)]
+    for label, pools, *sim in [(a, b) for a, b in scopes(chk)] + sims:
+        recs, p = D.generate(chk, label, pools, INV, simulate=sim[0] if sim else None, depth=600 if sim else None)
         replay_docs(chk, recs, p['UserSkipG'], check_doc, 'round trip and slice clause')
         for r in sorted(recs, key=lambda r: -len(r['i']))[:3]:
             chk.sample(from_atoms(r['i']))
